@@ -3,7 +3,7 @@ from props import lifecycle
 
 
 def check(run):
-    return lifecycle.check(run, "C12", ["stop", "stop2", "pipeline", "stopstates", "general"])
+    return lifecycle.check(run, "C12", ["stop", "stop2", "pipeline", "stopstates", "general", "long"])
 
 
 def replay(run, path):
